@@ -86,7 +86,35 @@ def run(ctx):
         if not lps:
             continue
         inloop = set().union(*lps.values())
-        probs = [f"draw at bb{bi} is outside the retry loop (the same bytes would be retried)" for bi, _ in lst if bi not in inloop]
+        # a loop is a retry loop for a draw when its body reads the buffer the draw filled
+        def locals_used(blocks):
+            used = set()
+            def visit(o):
+                if isinstance(o, dict):
+                    if "l" in o and "p" in o:
+                        r, _ = cfg.root_of(f, {"copy": {"l": o["l"], "p": []}})
+                        used.add(o["l"])
+                        if r is not None:
+                            used.add(r)
+                    for v in o.values():
+                        visit(v)
+                elif isinstance(o, list):
+                    for v in o:
+                        visit(v)
+            for b in blocks:
+                visit(f["body"]["blocks"][b]["stmts"])
+                visit(f["body"]["blocks"][b]["term"])
+            return used
+        used = locals_used(inloop)
+        probs = []
+        for bi, _ in lst:
+            if bi in inloop:
+                continue
+            t = f["body"]["blocks"][bi]["term"]
+            bufs = {cfg.root_of(f, a)[0] for a in t["args"]} | ({t["dest"]["l"]} if t.get("dest") else set())
+            bufs.discard(None)
+            if bufs & used:
+                probs.append(f"draw at bb{bi} is outside the loop that consumes its bytes (the same bytes would be retried)")
         ctx.add("R16.4", f"C16/retry-loop/{cn}/{k}", not probs, "; ".join(probs), site_of(f))
     # ---------------- R16.1 definedness in producer outputs
     def rng_ok(t, width=None):
